@@ -41,6 +41,25 @@ OPS = [
     (r'\bis not\b', 'is'),
     (r'if_fails', 'if_succeeds'),
     (r'reversed\((.*)\)', r'\1'),
+    # second operator set (campaign 3): constants, membership, slices, removed statements
+    (r' > ', ' >= '),
+    (r' != ', ' == '),
+    (r'\bis None\b', 'is not None'),
+    (r'\bTrue\b', 'False'),
+    (r'\bFalse\b', 'True'),
+    (r'\bmin\(', 'max('),
+    (r'\bmax\(', 'min('),
+    (r'\[1:\]', '[:]'),
+    (r'\[:-1\]', '[:]'),
+    (r'\[0\]', '[-1]'),
+    (r'\[-1\]', '[0]'),
+    (r'(?<![\w.\[])0(?![\w.\]])', '1'),
+    (r'(?<![\w.\[])1(?![\w.\]])', '2'),
+    (r' \+= ', ' -= '),
+    (r'\bany\(', 'all('),
+    (r'\ball\(', 'any('),
+    (r'\bif (.*):$', r'if True:'),
+    (r'\belif (.*):$', r'elif False:'),
 ]
 
 
@@ -63,6 +82,9 @@ def candidates():
                 continue
             # deletion of a statement that moves or restores the position / sets the status
             if re.search(r'out \+= \(?(POS|STATUS|RESULT|checkpoint|backtrack)', st) and not st.endswith(':'):
+                out.append((rel, i, 'delete', line, None))
+            elif re.search(r'^(continue|break)$|\.(append|add|pop|update|extend|discard|clear|setdefault)\(', st) and not st.endswith(':') \
+                    and st.count('(') == st.count(')'):
                 out.append((rel, i, 'delete', line, None))
             for pat, rep in OPS:
                 if re.search(pat, line):
@@ -91,7 +113,7 @@ def main():
     rng = random.Random(seed)
     rng.shuffle(cands)
     done = 0
-    wt = '/tmp/mutc/wt'
+    wt = os.environ.get('MUT_WT', '/tmp/mutc/wt')
     os.makedirs('/tmp/mutc', exist_ok=True)
     with open(outp, 'a') as log:
         for rel, i, op, old, new in cands:
@@ -124,7 +146,7 @@ def main():
             done += 1
             key = 'expressions' if 'expressions' in rel else os.path.basename(rel)
             caught = None
-            env = dict(os.environ, VERIF_REPO=wt, VERIF_JOBS='8')
+            env = dict(os.environ, VERIF_REPO=wt, VERIF_JOBS=os.environ.get('MUT_JOBS', '8'))
             for c in CHECKS_FOR[key]:
                 rc2, txt2 = run([os.path.join(HERE, 'check'), c, '--tier', 'quick'], HERE, 2400, env)
                 if rc2 == 1 and 'VIOLATION' in txt2:
